@@ -19,10 +19,16 @@ def sh(cmd, **kw):
 
 
 def main():
-    pid = sys.argv[1]
-    ks = sys.argv[2:] or ['1', '2']
-    for k in ks:
-        src = f'/tmp/seed-{pid}/_out/{k}'
+    args = sys.argv[1:]
+    wave = 1
+    if args and args[0] == '--wave':
+        wave = int(args[1])
+        args = args[2:]
+    pid = args[0]
+    ks = args[1:] or ['1', '2']
+    for k0 in ks:
+        src = f'/tmp/seed{"" if wave == 1 else wave}-{pid}/_out/{k0}'
+        k = str(int(k0) + 2 * (wave - 1))
         if not os.path.isfile(os.path.join(src, 'patch.diff')):
             print(pid, k, 'no patch.diff')
             continue
